@@ -1,7 +1,100 @@
 import Mutagen.Driver.Util
+import Mutagen.Model.Atomic
 namespace Mutagen.Driver.C27
+open Mutagen.Driver Mutagen.Model.Atomic
 
-/-- Model-side handler for one line of the C27 correspondence stream. -/
-def handle (_line : String) : String := "unimplemented"
+/-!
+Line: `<kind> <api> <old> <new> <perm> <fault> <crash>`
+
+* kind  `run` (in-process), `trace` (child under strace), `crash` (child under
+  strace, killed before its `crash`-th file-system call, counting from 0);
+* api   `wfa` = `filesystem.WriteFileAtomic`, `mas` = `encoding.MarshalAndSave`;
+* old   `none` or hex content of the existing target (mode 0640);
+* new   hex content to write; perm octal (ignored by `mas`, which uses 0600);
+* fault `none|marshal|create|write|close|chmod|rename`, optionally `+unlink`
+  (the cleanup `unlink` fails too);
+* crash `-` or a number.
+
+The directory also holds a bystander file. Answer:
+`[ops=<events> ][res=<result> ]target=<hex>:<mode>|none tmp=<n> stray=<n> bystander=<ok|bad>`
+(`ops` for trace and crash, `res` for run and trace). Events: `create`,
+`write:<offered length>`, `close`, `chmod:<mode>`, `rename`, `unlink`,
+`rmdir`, suffixed with `!` when the call failed; `-` for none.
+-/
+
+def octal (n : Nat) : String := String.ofList (Nat.toDigits 8 n)
+
+def parseOctal (s : String) : Option Nat :=
+  s.toList.foldlM (fun acc c => if '0' ≤ c ∧ c ≤ '7' then some (acc * 8 + (c.toNat - 48)) else none) 0
+
+def showOp : Op → String
+  | .create _ => "create"
+  | .write _ bs => s!"write:{bs.length}"
+  | .close _ => "close"
+  | .chmod _ m => s!"chmod:{octal m}"
+  | .rename _ _ => "rename"
+  | .unlink _ => "unlink"
+  | .rmdir _ => "rmdir"
+
+def showEvents (es : List Event) : String :=
+  if es.isEmpty then "-" else
+  ",".intercalate (es.map fun e => showOp e.1 ++ (if e.2 then "" else "!"))
+
+def showResult : Result → String
+  | .ok => "ok" | .errMarshal => "err-marshal" | .errCreate => "err-create" | .errWrite => "err-write"
+  | .errClose => "err-close" | .errChmod => "err-chmod" | .errRename => "err-rename"
+
+def bystander : File := { content := [98, 121], mode := 0o644 }
+
+def showState (d : Dir) : String :=
+  let target := match d.get "target".toList with
+    | some f => s!"{encHex f.content}:{octal f.mode}"
+    | none => "none"
+  let others := d.names.filter fun n => n ≠ "target".toList ∧ n ≠ "bystander".toList
+  let tmp := (others.filter isTemporary).length
+  let stray := others.length - tmp
+  let bst := if d.get "bystander".toList = some bystander then "ok" else "bad"
+  s!"target={target} tmp={tmp} stray={stray} bystander={bst}"
+
+def parseFaults (s : String) : Option Faults :=
+  let (step, unlink) := match s.splitOn "+" with
+    | [a, "unlink"] => (a, true)
+    | _ => (s, false)
+  let base : Faults := { removeFails := unlink }
+  match step with
+  | "none" => some base
+  | "marshal" => some { base with marshalFails := true }
+  | "create" => some { base with createFails := true }
+  | "write" => some { base with writeScript := [none] }
+  | "close" => some { base with closeFails := true }
+  | "chmod" => some { base with chmodFails := true }
+  | "rename" => some { base with renameFails := true }
+  | _ => none
+
+def handle (line : String) : String :=
+  match fields line with
+  | [kind, api, old, new, perm, fault, crash] =>
+    let r : Option String := do
+      let data ← decHex new
+      let perm ← parseOctal perm
+      let f ← parseFaults fault
+      let d0 : Dir ← if old == "none" then some [("bystander".toList, bystander)] else do
+        let o ← decHex old
+        pure [("target".toList, { content := o, mode := 0o640 }), ("bystander".toList, bystander)]
+      let tmp := tmpName ['0']
+      let (es, res) ← match api with
+        | "wfa" => some (writeFileAtomic tmp "target".toList data perm f)
+        | "mas" => some (marshalAndSave tmp "target".toList data f)
+        | _ => none
+      match kind with
+      | "run" => if crash == "-" then some s!"res={showResult res} {showState (replay d0 es)}" else none
+      | "trace" => if crash == "-" then some s!"ops={showEvents es} res={showResult res} {showState (replay d0 es)}" else none
+      | "crash" => do
+        let k ← crash.toNat?
+        let es' := es.take k
+        pure s!"ops={showEvents es'} {showState (replay d0 es')}"
+      | _ => none
+    r.getD "bad-op"
+  | _ => "bad-op"
 
 end Mutagen.Driver.C27
